@@ -787,22 +787,27 @@ Qed.
 Lemma keep_inv s s' : Inv s -> Keep s s' -> Inv s' /\ total_supply s' = total_supply s.
 Proof. intros I K. split; [exact (delta_inv _ _ I K)|exact (proj2 (proj2 K))]. Qed.
 
-Definition burned_body (p : params) (b : body) (r : rc) : N :=
-  match b, r with
-  | BBurn amt, ROk => amt
-  | BTransfer to amt, ROk => if to =? p_burn_addr p then amt else 0
-  | _, _ => 0
-  end.
-
 Lemma keep_body p s s' b r : Inv s -> Keep s s' -> burned_body p b r = 0 ->
   Inv s' /\ total_supply s = total_supply s' + burned_body p b r.
 Proof. intros I K ->. destruct (keep_inv _ _ I K) as [I' T]. split; [exact I'|lia]. Qed.
 
-Lemma exec_body_inv p s signer b g : Inv s ->
-  Inv (snd (exec_body p s signer b g)) /\
-  total_supply s = total_supply (snd (exec_body p s signer b g)) + burned_body p b (fst (exec_body p s signer b g)).
+Lemma withdraw_hooked_keep p s to from amt ok g : WF s -> Keep s (snd (withdraw_hooked p s to from amt ok g)).
 Proof.
-  intros I. pose proof (proj1 I) as W. destruct b; cbn [exec_body].
+  intros W. unfold withdraw_hooked, qmove.
+  repeat (caseif; [failb|]). cbn [snd].
+  apply N.eqb_neq in Heqb3.
+  assert (D1 : Delta s (add_general to amt s) amt 0) by (apply add_general_delta; exact W).
+  assert (D2 : Delta (add_general to amt s) (sub_general from amt (add_general to amt s)) 0 amt).
+  { apply sub_general_delta; [exact (proj1 D1)|].
+    unfold add_general. rewrite acct_upd_other by congruence. lia. }
+  eapply delta_weaken; [exact (delta_trans _ _ _ _ _ _ _ D1 D2)|lia].
+Qed.
+
+Lemma exec_leaf_inv p s signer b g : Inv s ->
+  Inv (snd (exec_leaf p s signer b g)) /\
+  total_supply s = total_supply (snd (exec_leaf p s signer b g)) + burned_body p b (fst (exec_leaf p s signer b g)).
+Proof.
+  intros I. pose proof (proj1 I) as W. destruct b; cbn [exec_leaf].
   - (* transfer *) unfold transfer.
     caseif; [apply keep_body; [exact I|failb|reflexivity]|].
     caseif; [apply keep_body; [exact I|failb|reflexivity]|].
@@ -823,6 +828,24 @@ Proof.
   - apply keep_body; [exact I|apply gov_submit_keep; exact W|reflexivity].
   - apply keep_body; [exact I| |reflexivity].
     repeat (caseif; [failb|]). failb.
+  - apply keep_body; [exact I|apply withdraw_hooked_keep; exact W|reflexivity].
+  - apply keep_body; [exact I|failb|reflexivity].
+Qed.
+
+Lemma exec_body_inv p s signer b g : Inv s ->
+  Inv (snd (exec_body p s signer b g)) /\
+  total_supply s = total_supply (snd (exec_body p s signer b g)) + burned_b p b (fst (exec_body p s signer b g)).
+Proof.
+  intros I. destruct b; try exact (exec_leaf_inv p s signer _ g I).
+  cbn [exec_body burned_b]. caseif.
+  - cbn [fst snd]. split; [exact I|]. destruct b; cbn [burned_body]; lia.
+  - exact (exec_leaf_inv p s caller b true I).
+Qed.
+
+Lemma burned_b_fail p b r : r <> ROk -> burned_b p b r = 0.
+Proof.
+  intros H. destruct b as [| | | | | | | | |c inner]; cbn [burned_b]; destruct r; try congruence;
+    try reflexivity; destruct inner; reflexivity.
 Qed.
 
 Lemma auth_fail_unchanged p s signer n fee : fst (auth p s signer n fee) <> ROk -> snd (auth p s signer n fee) = s.
@@ -840,15 +863,14 @@ Proof.
   pose proof (auth_fail_unchanged p s signer n fee) as F.
   destruct (auth p s signer n fee) as [r s1]. cbn [fst snd] in *.
   destruct (keep_inv _ _ I K) as [I1 T1].
-  assert (Hb : forall b' r', burned p (OTx signer n fee g1 g2 b') r' = burned_body p b' r').
-  { intros b' r'. unfold burned, burned_body. destruct b', r'; reflexivity. }
+  assert (Hb : forall b' r', burned p (OTx signer n fee g1 g2 b') r' = burned_b p b' r') by reflexivity.
   destruct r.
   - caseif.
-    + cbn [snd fst]. split; [exact I1|]. rewrite Hb. destruct b; cbn [burned_body]; lia.
+    + cbn [snd fst]. split; [exact I1|]. rewrite Hb, burned_b_fail by discriminate. lia.
     + destruct (exec_body_inv p s1 signer b g2 I1) as [I2 T2]. split; [exact I2|]. rewrite Hb. lia.
-  - cbn [snd fst]. split; [exact I1|]. rewrite Hb. destruct b; cbn [burned_body]; lia.
-  - cbn [snd fst]. split; [exact I1|]. rewrite Hb. destruct b; cbn [burned_body]; lia.
-  - cbn [snd fst]. split; [exact I1|]. rewrite Hb. destruct b; cbn [burned_body]; lia.
+  - cbn [snd fst]. split; [exact I1|]. rewrite Hb, burned_b_fail by discriminate. lia.
+  - cbn [snd fst]. split; [exact I1|]. rewrite Hb, burned_b_fail by discriminate. lia.
+  - cbn [snd fst]. split; [exact I1|]. rewrite Hb, burned_b_fail by discriminate. lia.
 Qed.
 
 Lemma step_inv p s o : Inv s ->
